@@ -166,7 +166,7 @@ def run(tier):
     run = Run(PROP, tier, 'other')
     spec_selfcheck()
     h = build()
-    msyn = h.monomorphise(['f32', 'f64'], bound='<S: BaseFloat>', method_syntax='only', soft=True)
+    msyn = h.monomorphise(['f32', 'f64'], bound=None, method_syntax='only', soft=True)   # (every single-parameter root, whatever its bound)
     S, inv, meta = facts.extract(PROP, h.src())
     report_dropped(run, meta, h)
     run_specs(run, S, h, custom={'interp': check_interp})
